@@ -470,7 +470,12 @@ def analyse(case, b, results, labels, *, removal=True):
                                 f"peak {i}: success with FWHM {width!r} > {rq['max_w']} * window data width {data_width!r}")
             steps = np.diff(xs)
             c = int(np.argmin(np.abs(xs - ppar["loc"])))
-            near = [steps[j] for j in (c - 1, c) if 0 <= j < len(steps)]
+            # "the spacing of the coordinate around the peak centre": the smallest spacing next to the
+            # nearest point, or - when that is the first / last point, which has a spacing on one side
+            # only - next to its inner neighbour (thorough run, seed 2: a last spacing larger than the
+            # one before it must not make the reading stricter than the two-sided one)
+            ci = min(max(c, 1), len(xs) - 2) if len(xs) >= 3 else c
+            near = [steps[j] for j in {c - 1, c, ci - 1, ci} if 0 <= j < len(steps)]
             local = float(min(near))
             if width < rq["min_w"] * local * (1 - 1e-12):
                 raise Violation("success-requirements",
